@@ -590,6 +590,9 @@ macro_rules! impl_rem_assign_scalar {
             #[inline]
             fn rem_assign(&mut self, other: &BigUint) {
                 *self = match other.$to_scalar() {
+                    // `other` exceeds the type's MAX, so the remainder is `self` itself,
+                    // unless `other` equals the magnitude of a signed MIN exactly.
+                    None if BigUint::from(self.abs_diff(0)) == *other => 0,
                     None => *self,
                     Some(0) => panic!("attempt to divide by zero"),
                     Some(v) => *self % v
